@@ -1,8 +1,8 @@
 package dom
 
 import (
-	"errors"
 	"encoding/json"
+	"errors"
 	"net/url"
 	"os"
 	"sort"
